@@ -37,6 +37,68 @@ type loopFact struct {
 	file, fn, kind, over string
 	polls                bool
 	pos                  int
+	guards               []string
+}
+
+// calls that check or compute an allocation size
+var guardCallees = map[string]bool{"MulLen": true, "MustBeOk": true, "MakeObjectSlice": true, "SizeOk": true}
+
+// loopGuards: for every loop that is a direct member of a statement list (block, case clause), what
+// syntactically dominates it inside that list, in source order: "if <cond> return" for every preceding
+// `if` without else whose body ends in a return (an early return), and the text of every preceding call of
+// MulLen / MustBeOk / MakeObjectSlice / SizeOk.  For a loop whose iteration count is only bounded because it
+// went through the allocation guard, this is what the bound rests on.
+func loopGuards(g goFile, body *ast.BlockStmt) map[ast.Node][]string {
+	res := map[ast.Node][]string{}
+	doList := func(list []ast.Stmt) {
+		var acc []string
+		for _, st := range list {
+			inner := st
+			if l, ok := inner.(*ast.LabeledStmt); ok {
+				inner = l.Stmt
+			}
+			switch inner.(type) {
+			case *ast.ForStmt, *ast.RangeStmt:
+				res[inner] = append([]string(nil), acc...)
+			}
+			if ifs, ok := st.(*ast.IfStmt); ok && ifs.Else == nil && len(ifs.Body.List) > 0 {
+				if _, isRet := ifs.Body.List[len(ifs.Body.List)-1].(*ast.ReturnStmt); isRet {
+					acc = append(acc, "if "+g.src(ifs.Cond)+" return")
+					continue
+				}
+			}
+			ast.Inspect(st, func(c ast.Node) bool {
+				switch x := c.(type) {
+				case *ast.FuncLit, *ast.ForStmt, *ast.RangeStmt:
+					return false
+				case *ast.CallExpr:
+					name := ""
+					switch f := x.Fun.(type) {
+					case *ast.SelectorExpr:
+						name = f.Sel.Name
+					case *ast.Ident:
+						name = f.Name
+					}
+					if guardCallees[name] {
+						acc = append(acc, g.src(x))
+					}
+				}
+				return true
+			})
+		}
+	}
+	ast.Inspect(body, func(n ast.Node) bool {
+		switch x := n.(type) {
+		case *ast.BlockStmt:
+			doList(x.List)
+		case *ast.CaseClause:
+			doList(x.Body)
+		case *ast.CommClause:
+			doList(x.Body)
+		}
+		return true
+	})
+	return res
 }
 
 func extractLoopFacts(repo, gendir string) error {
@@ -62,6 +124,7 @@ func extractLoopFacts(repo, gendir string) error {
 			if g.rel == "repl/repl.go" && !replEvalPath[fd.Name.Name] {
 				continue
 			}
+			guards := loopGuards(g, fd.Body)
 			ast.Inspect(fd.Body, func(n ast.Node) bool {
 				var body *ast.BlockStmt
 				lf := loopFact{file: g.rel, fn: fn}
@@ -94,6 +157,7 @@ func extractLoopFacts(repo, gendir string) error {
 					return true
 				}
 				lf.pos = int(n.Pos())
+				lf.guards = guards[n]
 				ast.Inspect(body, func(c ast.Node) bool {
 					if call, ok := c.(*ast.CallExpr); ok {
 						switch f := call.Fun.(type) {
@@ -134,8 +198,8 @@ func extractLoopFacts(repo, gendir string) error {
 	var sb strings.Builder
 	sb.WriteString("/- GENERATED by `harness extract` (harness/cmd/harness/extract_loops.go) from the Go sources of the\n   repo; regenerated on every run of bin/check.  Do not edit. -/\n")
 	sb.WriteString("namespace Grol.Generated.LoopFacts\n\n")
-	sb.WriteString("/-- one Go-level loop: file, enclosing function declaration, kind (for | range), header text, and whether\nits body syntactically contains a call of a context-polling evaluator entry point -/\n")
-	sb.WriteString("structure Loop where\n  file : String\n  fn : String\n  kind : String\n  over : String\n  polls : Bool\n  deriving DecidableEq, Repr\n\n")
+	sb.WriteString("/-- one Go-level loop: file, enclosing function declaration, kind (for | range), header text, and whether\nits body syntactically contains a call of a context-polling evaluator entry point; guards = what dominates the\nloop inside its own statement list, in source order: `if <cond> return` for each preceding early return and the text of each\npreceding MulLen / MustBeOk / MakeObjectSlice / SizeOk call -/\n")
+	sb.WriteString("structure Loop where\n  file : String\n  fn : String\n  kind : String\n  over : String\n  polls : Bool\n  guards : List String\n  deriving DecidableEq, Repr\n\n")
 	sb.WriteString("/-- what identifies a loop: everything but the line number -/\ndef Loop.site (l : Loop) : String := l.file ++ \" | \" ++ l.fn ++ \" | \" ++ l.kind ++ \" \" ++ l.over\n\n")
 	fmt.Fprintf(&sb, "/-- callee names counted as polling the evaluation context -/\ndef pollingCallees : List String := %s\n\n", leanStrList(names))
 	sb.WriteString("/-- every `for` statement of packages eval and object and of the functions of repl/repl.go on the path of one\nevaluated input, sorted by file, function and source order -/\n")
@@ -149,7 +213,7 @@ func extractLoopFacts(repo, gendir string) error {
 		if l.polls {
 			p = "true"
 		}
-		fmt.Fprintf(&sb, "  ⟨%s, %s, %s, %s, %s⟩%s\n", leanStr(l.file), leanStr(l.fn), leanStr(l.kind), leanStr(l.over), p, sep)
+		fmt.Fprintf(&sb, "  ⟨%s, %s, %s, %s, %s, %s⟩%s\n", leanStr(l.file), leanStr(l.fn), leanStr(l.kind), leanStr(l.over), p, leanStrList(l.guards), sep)
 	}
 	sb.WriteString("]\n\n")
 	sb.WriteString("end Grol.Generated.LoopFacts\n")
